@@ -44,6 +44,7 @@ class DCConfig:
     server_tokens: t.Sequence[bytes] = (b"SRV1", b"")
     reply_align: int = 16
     reply_pad_fill: int = 0xBB
+    reply_pad_exact: t.Optional[int] = None  # force an auth pad length 0..255 regardless of alignment
     l2_key_absent_at_31: bool = False
     envelope_future: bool = False  # return the key for "now" even when an older one was requested (never done: conforming DC)
     tamper: t.Optional[t.Callable[..., bytes]] = None
@@ -369,7 +370,7 @@ class Conn:
         if self.sec is None:
             out = rpc.encode(dict(ptype=rpc.RESPONSE, flags=FL, call_id=m["call_id"], auth=None, alloc_hint=len(stub), ctx_id=m["ctx_id"], cancel_count=0, stub=stub))
         else:
-            padn = -len(stub) % cfg.reply_align
+            padn = -len(stub) % cfg.reply_align if cfg.reply_pad_exact is None else cfg.reply_pad_exact
             body = stub + bytes([cfg.reply_pad_fill]) * padn
             sig_size = self.sec.sig_size
             frag = 24 + len(body) + 8 + sig_size
